@@ -43,7 +43,7 @@ def main():
         out["files_touched"] = sh(f"git -C {wt} diff --stat")[1].strip().splitlines()
         # the agent's script names its own worktree: point it at ours
         src = (d / "equiv.py").read_text()
-        wt_name = re.search(r"/tmp/wt[TUV]-C\d\d", src)
+        wt_name = re.search(r"/tmp/wt[TUVW]-C\d\d", src)
         patched = src.replace(wt_name.group(0), str(wt)) if wt_name else src
         (tmp / "equiv.py").write_text(patched)
         rc, o = sh(f"timeout 900 {PY} {tmp}/equiv.py", cwd=str(tmp), env=dict(os.environ), timeout=1000)
